@@ -1450,6 +1450,20 @@ def replay(a):
     rec = case.get("record") or {}
     pid = r.get("prop", a.pid)
     tag = f"{pid}/replay"
+    if "longchain" in case:
+        # one long unnested text through one call sequence, in its own process
+        c = case["longchain"]
+        p = vlib.run_recorder(["longchain", "--n", str(c["n"]), "--op", c["op"], "--act", c["act"], "--ty", c["ty"]], timeout=300)
+        out = p.stdout.decode().strip()
+        outcome = json.loads(out)["outcome"] if out else "aborted"
+        log(f"replay: longchain {c['ty']} n={c['n']} op={c['op']} act={c['act']}: {outcome} (rc={p.returncode})")
+        if outcome == "ok":
+            return 0
+        if outcome == "aborted" and c["act"] in ("roundtrip", "partial") and c["n"] > 65 and vlib.finding_open("F11"):
+            log(f"KNOWN-FINDING: property={pid} F11: stack exhaustion on a long unnested text ({c['act']}, {c['n']} operands)")
+            return 0
+        log(f"VIOLATION property={pid} replay={a.replay}")
+        return 1
     if "text" in rec and ("runs" in rec or "table" in rec):
         # expression case: text (+ table) through the entry points that were recorded
         table = rec.get("table") or t8_table_json()
